@@ -9,11 +9,15 @@ stdout: JSON list, one entry per job:
    ["internal", exception class, file, function, lineno, message[:200], expr]
                                                  any other exception; (file, function) = innermost frame inside jmc/;
                                                  expr = source text (whitespace removed) of the very sub-expression /
-                                                 statement of that frame that was executing (code.co_positions) + " @ " +
-                                                 the text of its source line, e.g. `tokens[3] @ deltokens[3]`: the
-                                                 crash SITE, stable under moving / re-indenting code
+                                                 that was executing in that frame (code.co_positions -> ast node), local
+                                                 names anonymised, prefixed by the kind of statement it belongs to, e.g.
+                                                 `Delete:_[3]` for `del tokens[3]`: the crash SITE, stable under renaming
+                                                 locals / moving / re-indenting / re-wrapping code
    ["timeout"]                                   signal.alarm fired
 """
+import ast
+import builtins
+import copy
 import itertools
 import json
 import linecache
@@ -31,23 +35,59 @@ def _alarm(signum, frame):
     raise _Timeout()
 
 
+_TREES = {}
+
+
+class _Anon(ast.NodeTransformer):
+    """local names -> `_` (attribute names, constants and the shape stay)"""
+
+    def visit_Name(self, node):
+        if hasattr(builtins, node.id) or node.id[:1].isupper():
+            return node          # builtins, classes and constants are not local names
+        return ast.copy_location(ast.Name(id="_", ctx=node.ctx), node)
+
+
+def _site_of(filename, l0, l1, c0, c1):
+    """`<kind of the enclosing simple statement / compound header>:<failing sub-expression, local names anonymised>`"""
+    if filename not in _TREES:
+        with open(filename, "rb") as fh:
+            tree = ast.parse(fh.read())
+        parents = {}
+        for node in ast.walk(tree):
+            for ch in ast.iter_child_nodes(node):
+                parents[ch] = node
+        _TREES[filename] = (tree, parents)
+    tree, parents = _TREES[filename]
+    best = None
+    for node in ast.walk(tree):
+        if getattr(node, "lineno", None) == l0 and getattr(node, "end_lineno", None) == l1 \
+                and node.col_offset == c0 and node.end_col_offset == c1:
+            best = node
+            break
+    if best is None:
+        return None
+    st = best
+    while not isinstance(st, ast.stmt) and st in parents:
+        st = parents[st]
+    text = ast.unparse(_Anon().visit(copy.deepcopy(best)))
+    return (type(st).__name__ + ":" + "".join(text.split()))[:200]
+
+
 def failing_expr(tb) -> str:
-    """source text of the instruction that was executing in the frame of `tb`, all whitespace removed"""
+    """the crash SITE inside the frame of `tb`: kind of statement + the sub-expression that was executing
+    (code.co_positions -> ast node), local variable names anonymised: stable under renaming locals, re-indenting,
+    re-wrapping and moving code; fallback: the raw source text of the line"""
+    code = tb.tb_frame.f_code
     try:
-        code = tb.tb_frame.f_code
         l0, l1, c0, c1 = next(itertools.islice(code.co_positions(), tb.tb_lasti // 2, None))
-        if None in (l0, l1, c0, c1):
-            return "".join(linecache.getline(code.co_filename, tb.tb_lineno).split())[:160]
-        lines = [linecache.getline(code.co_filename, n).encode("utf-8") for n in range(l0, l1 + 1)]
-        if l0 == l1:
-            lines[0] = lines[0][c0:c1]
-        else:
-            lines[0] = lines[0][c0:]
-            lines[-1] = lines[-1][:c1]
-        expr = "".join(b"".join(lines).decode("utf-8", "replace").split())[:160]
-        # + the (whitespace-free) text of the source line it starts on: `tokens[1]` alone does not tell
-        # `del tokens[1]` from `tokens[1] = merge(...)` in another branch of the same function
-        return expr + " @ " + "".join(linecache.getline(code.co_filename, l0).split())[:100]
+        if None not in (l0, l1, c0, c1):
+            site = _site_of(code.co_filename, l0, l1, c0, c1)
+            if site is not None:
+                return site
+    except Exception:  # noqa
+        pass
+    try:
+        return "line:" + "".join(linecache.getline(code.co_filename, tb.tb_lineno).split())[:160]
     except Exception:  # noqa
         return "?"
 
